@@ -246,6 +246,25 @@ theorem live_workers_are_pool_slots_partial (c : CaseCfg) (steps : List Step) (h
     · exact Or.inr (hc.free aid a g hal (fun p hp hpa => hslot ⟨p, hp, hpa⟩))
 
 open Factory in
+/-- (the hypothesis of `limit_worker_queue`, as an invariant — `_partial` under `noStaleRun`) whenever the factory
+has no supervision event left to handle — which is the case whenever it handles a MESSAGE, since supervision
+events outrank messages — the worker actor of every pool slot is open: a hand-over (`dispatch_job`) to it succeeds.
+`limit_worker_queue` assumed this (`ActorOpen`); it is now derived for every run without a stale completion. -/
+theorem slot_workers_open_at_message_boundary_partial (c : CaseCfg) (steps : List Step)
+    (hns : noStaleRun (init c) steps = true) :
+    let w := (init c).runSteps steps
+    w.stopped = false → w.env.sup = [] → ∀ p ∈ w.pool, ActorOpen w.env p.actor := by
+  intro w hs hsup p hp
+  have hc := (j_always c steps hns).core hs
+  obtain ⟨a, g, _, _, hd⟩ := hc.sa p hp
+  refine ⟨a, g, ?_⟩
+  cases hx : a.alive with
+  | true => rfl
+  | false =>
+    have := (hd hx).1
+    rw [hsup] at this; cases this
+
+open Factory in
 /-- (convergence) once no slot has work, the pool is exactly the slots `0 … pool_size - 1`,
 one worker each — whatever sequence of resizes and deaths led there. -/
 theorem pool_converges (c : CaseCfg) (steps : List Step)
@@ -448,6 +467,7 @@ end C15
 #print axioms C15.rate_limited_dispatch
 #print axioms C15.pool_shape
 #print axioms C15.live_workers_are_pool_slots_partial
+#print axioms C15.slot_workers_open_at_message_boundary_partial
 #print axioms C15.pool_converges
 #print axioms C15.resize_sets_size
 #print axioms C15.drain_is_forever
